@@ -18,9 +18,10 @@ I32 = (-(2 ** 31), 2 ** 31 - 1)
 FIELDS = {
     'VInner': [('a', 'int'), ('b', 'long')],
     'VOuter': [('c', 'char'), ('l', 'long'), ('ul', 'ulong'), ('i', 'int'), ('ll', 'llong'), ('arr', 'long3'), ('p', 'ptr'), ('in', 'VInner'), ('s', 'short')],
+    'VMisc': [('col', 'enum'), ('b', 'bool'), ('uc', 'uchar'), ('d', 'double'), ('fl', 'float'), ('pa', 'ptr2'), ('us', 'ushort')],
     'VRev': [('s', 'short'), ('in', 'VInner'), ('p', 'ptr'), ('arr', 'long3'), ('ll', 'llong'), ('i', 'int'), ('ul', 'ulong'), ('l', 'long'), ('c', 'char')],
 }
-GUEST_C = {'char': 'int8_t', 'short': 'int16_t', 'int': 'int32_t', 'long': 'int32_t', 'ulong': 'uint32_t', 'llong': 'int64_t', 'ptr': 'uint32_t'}
+GUEST_C = {'enum': 'uint32_t', 'bool': '_Bool', 'uchar': 'uint8_t', 'ushort': 'uint16_t', 'double': 'double', 'float': 'float', 'char': 'int8_t', 'short': 'int16_t', 'int': 'int32_t', 'long': 'int32_t', 'ulong': 'uint32_t', 'llong': 'int64_t', 'ptr': 'uint32_t'}
 
 
 def guest_struct_decl(S):
@@ -28,6 +29,8 @@ def guest_struct_decl(S):
     for f, k in FIELDS[S]:
         if k == 'long3':
             out += 'int32_t %s[3]; ' % f
+        elif k == 'ptr2':
+            out += 'uint32_t %s[2]; ' % f
         elif k in FIELDS:
             out += 'struct GUEST_%s %s; ' % (k, f)
         else:
@@ -49,6 +52,9 @@ def leaves_of(path, S, fn):
         if k == 'long3':
             for j in range(3):
                 out.append(fn(path + [f], 'long', j))
+        elif k == 'ptr2':
+            for j in range(2):
+                out.append(fn(path + [f], 'ptr', j))
         elif k in FIELDS:
             out += leaves_of(path + [f], k, fn)
         else:
@@ -71,6 +77,12 @@ def sbx_expr(base, path, idx):
     """value of the field in a plain Sbx_vlib_S<vsbx> struct"""
     e = base + ''.join('.%s' % p for p in path)
     return e + ('[%d]' % idx if idx is not None else '')
+
+
+def eqv(a, b, k):
+    if k in ('double', 'float'):
+        return '((%s) == (%s) || ((%s) != (%s) && (%s) != (%s)))' % (a, b, a, a, b, b)
+    return 'MI(%s) == MI(%s)' % (a, b)
 
 
 def fits(kind, e):
@@ -102,14 +114,14 @@ def store_inst(S, tier):
           ('cell_is_guest_image', '__CPROVER_requires(__CPROVER_rw_ok($this, sizeof(struct GUEST_%s)) && V_WHICH((uintptr_t)$this) != -1 && g_expect_example == (uintptr_t)$this)' % S),
           ('src_obj', '__CPROVER_requires(__CPROVER_r_ok($0, sizeof(struct %s)))' % TT)]
     na = leaves_of([], S, lambda p, k, j: fits(k, app_expr('$0', p, j)))
-    cl.append(('noabort_pre', '__CPROVER_requires(g_noabort ==> (%s))' % ' && '.join(x for x in na if x != '1')))
+    cl.append(('noabort_pre', '__CPROVER_requires(g_noabort ==> (%s))' % (' && '.join(x for x in na if x != '1') or '1')))
 
     def post(p, k, j):
         src, dst = app_expr('$0', p, j), guest_expr('$this', p, j)
         tag = 'field_%s%s' % ('_'.join(p), '' if j is None else '_%d' % j)
         if k == 'ptr':
             return (tag, '__CPROVER_ensures(((uintptr_t)%s == 0 ==> %s == 0) && (((uintptr_t)%s != 0 && V_IN(%s, (uintptr_t)%s)) ==> MI(%s) == MI((uintptr_t)%s) - MI(V_BASE[%s])))' % (src, dst, src, W, src, dst, src, W))
-        return (tag, '__CPROVER_ensures(MI(%s) == MI(%s))' % (dst, src))
+        return (tag, '__CPROVER_ensures(%s)' % eqv(dst, src, k))
     cl += leaves_of([], S, post)
     cl.append(('returns_self', '__CPROVER_ensures((void *)$ret == (void *)$this)'))
     cl.append(('frame_exactly_the_guest_image', '__CPROVER_assigns(__CPROVER_object_whole($this))'))
@@ -134,7 +146,7 @@ def load_inst(S, tier):
         tag = 'field_%s%s' % ('_'.join(p), '' if j is None else '_%d' % j)
         if k == 'ptr':
             return (tag, '__CPROVER_ensures((%s == 0 ==> (uintptr_t)%s == 0) && ((%s != 0 && (uintptr_t)%s < V_SIZE[%s]) ==> (uintptr_t)%s == V_BASE[%s] + (uintptr_t)%s))' % (src, dst, src, src, W, dst, W, src))
-        return (tag, '__CPROVER_ensures(MI(%s) == MI(%s))' % (dst, src))
+        return (tag, '__CPROVER_ensures(%s)' % eqv(dst, src, k))
     cl += leaves_of([], S, post)
     cl.append(('frame', '__CPROVER_assigns()'))
     h = REGIONS + ('  struct %s cell; __CPROVER_assume(V_WHICH((uintptr_t)&cell) != -1); g_expect_example = (uintptr_t)&cell; g_noabort = 0;\n'
@@ -152,14 +164,14 @@ def byvalue_inst(S, tier):
     SL = '$0->base0.slot'
     cl = sb_req('$0') + [('src_obj', '__CPROVER_requires(__CPROVER_r_ok($this, sizeof(struct %s)))' % TT)]
     na = leaves_of([], S, lambda p, k, j: fits(k, app_expr('$this', p, j)))
-    cl.append(('noabort_pre', '__CPROVER_requires(g_noabort ==> (%s))' % ' && '.join(x for x in na if x != '1')))
+    cl.append(('noabort_pre', '__CPROVER_requires(g_noabort ==> (%s))' % (' && '.join(x for x in na if x != '1') or '1')))
 
     def post(p, k, j):
         src, dst = app_expr('$this', p, j), sbx_expr('$ret', p, j)
         tag = 'field_%s%s' % ('_'.join(p), '' if j is None else '_%d' % j)
         if k == 'ptr':
             return (tag, '__CPROVER_ensures(((uintptr_t)%s == 0 ==> %s == 0) && (((uintptr_t)%s != 0 && V_IN(%s, (uintptr_t)%s)) ==> MI(%s) == MI((uintptr_t)%s) - MI(V_BASE[%s])))' % (src, dst, src, SL, src, dst, src, SL))
-        return (tag, '__CPROVER_ensures(MI(%s) == MI(%s))' % (dst, src))
+        return (tag, '__CPROVER_ensures(%s)' % eqv(dst, src, k))
     cl += leaves_of([], S, post)
     cl.append(('frame', '__CPROVER_assigns()'))
     h = REGIONS + SB_DECL + '  struct %s v;\n  struct %s r = $ROOT(&v, &sb);\n' % (TT, SBX)
@@ -168,7 +180,7 @@ def byvalue_inst(S, tier):
 
 
 def units(tier):
-    fam = ['VOuter', 'VInner'] if tier == 'quick' else ['VOuter', 'VInner', 'VRev']
+    fam = ['VOuter', 'VInner', 'VMisc'] if tier == 'quick' else ['VOuter', 'VInner', 'VMisc', 'VRev']
     insts = []
     for S in fam:
         insts += [store_inst(S, tier), load_inst(S, tier), byvalue_inst(S, tier)]
@@ -176,7 +188,7 @@ def units(tier):
 
 
 ASSUMPTIONS = [
-    'the struct family of /verif/backend/vstructs.hpp stands for "every struct": field kinds {char, short, int, long, unsigned long, long long, object pointer, long[3], nested struct} in declared and reversed order; bool/enum/float/function-pointer/array-of-pointer fields are not in the family',
+    'the struct family of /verif/backend/vstructs.hpp stands for "every struct": field kinds {enum, bool, char, unsigned char, short, unsigned short, int, long, unsigned long, long long, float, double, object pointer, long[3], int*[2], nested struct}, one struct also in reversed order; function-pointer fields are not in the family',
     'pointer fields translate through the no-context backend contracts with the guest image as example (C04)',
     'the guest image is stable during one call; by-value passing through invoke uses the same conversion (C11)',
 ]
